@@ -125,6 +125,9 @@ def run_check(prop, tier, seed, replay=None):
     from concurrent.futures import ThreadPoolExecutor
     pool = ThreadPoolExecutor(max_workers=int(os.environ.get("VERIF_JOBS", "6")))
     targets = prop.targets(tier)
+    dup = sorted({t.name for t in targets if [u.name for u in targets].count(t.name) > 1})
+    if dup:
+        raise HarnessFault(f"duplicate target names {dup}: generated files would overwrite each other")
     for t in targets:
         try:
             t.generate(bdir)
